@@ -31,13 +31,13 @@ theorem getAck_of_not_expired (s : MSt) (now : Int) (h : expired s now = false) 
 theorem not_expired_of_none (s : MSt) (now : Int) (h : s.ack = .none) : expired s now = false := by
   simp [expired, h]
 
-theorem expired_mk (b : St) (a : Ack) (e : Int) (cm : List Cmt) (sp sr dt pa : Bool) (now : Int) :
-    expired ⟨b, a, e, cm, sp, sr, dt, pa⟩ now = (a != .none && e != 0 && decide (e < now)) := rfl
+theorem expired_mk (b : St) (a : Ack) (e : Int) (cm : List Cmt) (sp sr dt pa : Bool) (sb : SState) (now : Int) :
+    expired ⟨b, a, e, cm, sp, sr, dt, pa, sb⟩ now = (a != .none && e != 0 && decide (e < now)) := rfl
 
-theorem getAck_mk (b : St) (a : Ack) (e : Int) (cm : List Cmt) (sp sr dt pa : Bool) (now : Int) :
-    getAck ⟨b, a, e, cm, sp, sr, dt, pa⟩ now =
-      if (a != .none && e != 0 && decide (e < now)) then (⟨b, .none, 0, cm, sp, sr, dt, pa⟩, 1)
-      else (⟨b, a, e, cm, sp, sr, dt, pa⟩, 0) := by
+theorem getAck_mk (b : St) (a : Ack) (e : Int) (cm : List Cmt) (sp sr dt pa : Bool) (sb : SState) (now : Int) :
+    getAck ⟨b, a, e, cm, sp, sr, dt, pa, sb⟩ now =
+      if (a != .none && e != 0 && decide (e < now)) then (⟨b, .none, 0, cm, sp, sr, dt, pa, sb⟩, 1)
+      else (⟨b, a, e, cm, sp, sr, dt, pa, sb⟩, 0) := by
   cases h : (a != .none && e != 0 && decide (e < now))
   · rw [getAck_of_not_expired _ _ (by rw [expired_mk]; exact h)]; simp
   · rw [getAck_of_expired _ _ (by rw [expired_mk]; exact h)]; simp
@@ -68,7 +68,7 @@ theorem step_ack (c : Cfg) (s : MSt) (via : Via) (sticky notify persistent : Boo
         let gone := e != 0 && decide (e < now)
         (⟨s.base, if gone then .none else ackTypeOf sticky, if gone then 0 else e,
           if addsComment via then insertCmt ⟨now, persistent, commentExpire via expiry⟩ s.comments else s.comments,
-          s.suppProblem, s.suppRecovery, s.inDowntime, s.paused⟩,
+          s.suppProblem, s.suppRecovery, s.inDowntime, s.paused, s.stateBefore⟩,
          { acc := true, nSet := 1, nClr := (if expired s now then 1 else 0) + (if gone then 1 else 0),
            nAckN := if notify && !s.paused then 1 else 0, raw := ackTypeOf sticky }) := by
   cases hp : preRefuse c s via expiry now
@@ -86,7 +86,7 @@ theorem step_ack (c : Cfg) (s : MSt) (via : Via) (sticky notify persistent : Boo
 theorem step_remove (c : Cfg) (s : MSt) (via : RVia) (now : Int) :
     step c s (.remove via now) =
       (⟨s.base, .none, 0, if via != .cluster then s.comments.filter (·.persistent) else s.comments, s.suppProblem,
-         s.suppRecovery, s.inDowntime, s.paused⟩,
+         s.suppRecovery, s.inDowntime, s.paused, s.stateBefore⟩,
        { acc := true, nClr := s.ack.ind, raw := .none }) := by
   cases ha : s.ack <;> simp [step, opStep, removeStep, clearAck, getAck_mk, Op.now, ha, Ack.ind]
 
@@ -150,7 +150,9 @@ theorem step_result (c : Cfg) (s : MSt) (new : SState) (es ee now : Int)
       let stash := due && (a1 != .none || s.inDowntime || s.suppProblem || s.suppRecovery)
       (⟨(stepCore c s.base ⟨new, es, now⟩).1, a1, if s.ack != .none && a1 == .none then 0 else s.expiry,
         if a1 == .none then s.comments.filter (keepsComment ee) else s.comments,
-        s.suppProblem || (stash && !recovery), s.suppRecovery || (stash && recovery), s.inDowntime, s.paused⟩,
+        s.suppProblem || (stash && !recovery), s.suppRecovery || (stash && recovery), s.inDowntime, s.paused,
+        if stash && !(s.suppProblem || s.suppRecovery) then (if s.base.stype == .hard then s.base.state else .ok)
+        else s.stateBefore⟩,
        { acc := true, nClr := (if expired s now then 1 else 0) + (if a0 != .none && a1 == .none then 1 else 0),
          nProbN := if due && !stash && !recovery then 1 else 0,
          nRecN := if due && !stash && recovery then 1 else 0, raw := a1 }) := by
@@ -173,7 +175,7 @@ theorem step_result (c : Cfg) (s : MSt) (new : SState) (es ee now : Int)
 
 /-! ## Specification bookkeeping vs. model state -/
 
-def Rel (sp : SpecSt) (s : MSt) : Prop :=
+def RelCore (sp : SpecSt) (s : MSt) : Prop :=
   sp.state = s.base.state ∧ sp.ack = s.ack ∧ (s.ack ≠ .none → sp.expiry = s.expiry) ∧ sp.comments = s.comments ∧
   sp.inDt = s.inDowntime ∧ sp.stype = s.base.stype ∧ sp.attempt = s.base.attempt ∧ sp.suppP = s.suppProblem ∧
   sp.suppR = s.suppRecovery ∧ sp.paused = s.paused
@@ -182,7 +184,7 @@ def Rel (sp : SpecSt) (s : MSt) : Prop :=
 def RelA (sp : SpecSt) (s : MSt) : Prop :=
   sp.ack = s.ack ∧ (s.ack ≠ .none → sp.expiry = s.expiry) ∧ sp.suppP = s.suppProblem ∧ sp.suppR = s.suppRecovery
 
-theorem Rel.toA {sp : SpecSt} {s : MSt} (h : Rel sp s) : RelA sp s :=
+theorem RelCore.toA {sp : SpecSt} {s : MSt} (h : RelCore sp s) : RelA sp s :=
   ⟨h.2.1, h.2.2.1, h.2.2.2.2.2.2.2.1, h.2.2.2.2.2.2.2.2.1⟩
 
 theorem ranOut_eqA (sp : SpecSt) (s : MSt) (now : Int) (h : RelA sp s) : ranOut sp now = expired s now := by
@@ -193,13 +195,13 @@ theorem ranOut_eqA (sp : SpecSt) (s : MSt) (now : Int) (h : RelA sp s) : ranOut 
   · simp [ha]
   · rw [h3 ha]
 
-theorem ranOut_eq (sp : SpecSt) (s : MSt) (now : Int) (h : Rel sp s) : ranOut sp now = expired s now :=
+theorem ranOut_eq (sp : SpecSt) (s : MSt) (now : Int) (h : RelCore sp s) : ranOut sp now = expired s now :=
   ranOut_eqA sp s now h.toA
 
 theorem ackAt_eqA (sp : SpecSt) (s : MSt) (now : Int) (h : RelA sp s) : ackAt sp now = ackNow s now := by
   simp [ackAt, ackNow, ranOut_eqA sp s now h, h.1]
 
-theorem ackAt_eq (sp : SpecSt) (s : MSt) (now : Int) (h : Rel sp s) : ackAt sp now = ackNow s now :=
+theorem ackAt_eq (sp : SpecSt) (s : MSt) (now : Int) (h : RelCore sp s) : ackAt sp now = ackNow s now :=
   ackAt_eqA sp s now h.toA
 
 theorem getAck_ack (s : MSt) (now : Int) : (getAck s now).1.ack = ackNow s now := by
@@ -211,7 +213,8 @@ theorem getAck_cnt (s : MSt) (now : Int) : (getAck s now).2 = if expired s now t
 theorem getAck_rest (s : MSt) (now : Int) :
     (getAck s now).1.base = s.base ∧ (getAck s now).1.comments = s.comments ∧
     (getAck s now).1.inDowntime = s.inDowntime ∧ (getAck s now).1.suppProblem = s.suppProblem ∧
-    (getAck s now).1.suppRecovery = s.suppRecovery ∧ (getAck s now).1.paused = s.paused := by
+    (getAck s now).1.suppRecovery = s.suppRecovery ∧ (getAck s now).1.paused = s.paused ∧
+    (getAck s now).1.stateBefore = s.stateBefore := by
   cases he : expired s now <;> simp [getAck_of_not_expired, getAck_of_expired, he]
 
 theorem getAck_expiry (s : MSt) (now : Int) :
@@ -243,7 +246,7 @@ theorem look_clauses (c : Cfg) (sp : SpecSt) (s' : MSt) (op : Op) (acc : Bool) (
   have hr := ranOut_eqA sp s' op.now h
   have ha := ackAt_eqA sp s' op.now h
   obtain ⟨h2, h3, h4, h5⟩ := h
-  simp only [lookChecks, common, quiet, hexp]
+  simp only [lookChecks, lookCore, common, quiet, hexp]
   simp only [lookObs, obsOf, getAck_ack, getAck_cnt, getAck_rest, getAck_expiry, handledOf, sevAckOf, problemOf, ha, hr,
     hd, h2, h4, h5]
   cases he : expired s' op.now
@@ -261,21 +264,22 @@ theorem look_clauses (c : Cfg) (sp : SpecSt) (s' : MSt) (op : Op) (acc : Bool) (
 /-- The relation after a look. -/
 theorem rel_after_look (c : Cfg) (sp : SpecSt) (s' : MSt) (now : Int) (acc : Bool) (raw : Ack) (inDt paused : Bool)
     (e : Int) (rem : Nat) (h2 : sp.ack = s'.ack) (h3 : s'.ack ≠ .none → sp.expiry = s'.expiry) (hd : inDt = s'.inDowntime)
-    (hp : paused = s'.paused) (he : e = if ackNow s' now == .none then 0 else sp.expiry) :
-    Rel { state := (lookObs c s' now acc raw rem).state, ack := (lookObs c s' now acc raw rem).ack,
-          comments := (lookObs c s' now acc raw rem).comments, inDt := inDt, expiry := e,
-          stype := (lookObs c s' now acc raw rem).stype, attempt := (lookObs c s' now acc raw rem).attempt,
-          suppP := (lookObs c s' now acc raw rem).suppP, suppR := (lookObs c s' now acc raw rem).suppR, paused := paused }
+    (hp : paused = s'.paused) (he : e = if ackNow s' now == .none then 0 else sp.expiry) (bf : SState := sp.before) :
+    RelCore { state := (lookObs c s' now acc raw rem).state, ack := (lookObs c s' now acc raw rem).ack,
+              comments := (lookObs c s' now acc raw rem).comments, inDt := inDt, expiry := e,
+              stype := (lookObs c s' now acc raw rem).stype, attempt := (lookObs c s' now acc raw rem).attempt,
+              suppP := (lookObs c s' now acc raw rem).suppP, suppR := (lookObs c s' now acc raw rem).suppR, paused := paused,
+              before := bf }
       (getAck s' now).1 := by
   subst he
   cases hx : expired s' now
-  · simp [lookObs, obsOf, Rel, getAck_of_not_expired, hx, hd, hp, ackNow]
+  · simp [lookObs, obsOf, RelCore, getAck_of_not_expired, hx, hd, hp, ackNow]
     intro hk; simp [hk, h3 hk]
-  · simp [lookObs, obsOf, Rel, getAck_of_expired, hx, hd, hp, ackNow]
+  · simp [lookObs, obsOf, RelCore, getAck_of_expired, hx, hd, hp, ackNow]
 
-theorem spec_step_advance (c : Cfg) (sp : SpecSt) (s : MSt) (now : Int) (h : Rel sp s) :
+theorem spec_step_advance (c : Cfg) (sp : SpecSt) (s : MSt) (now : Int) (h : RelCore sp s) :
     specStep c sp (.advance now) (obsOf c (step c s (.advance now))) = none ∧
-    Rel (specNext sp (.advance now) (obsOf c (step c s (.advance now)))) (step c s (.advance now)).1 := by
+    RelCore (specNext sp (.advance now) (obsOf c (step c s (.advance now)))) (step c s (.advance now)).1 := by
   rw [step_advance]
   have hexp : expiryAfter sp (.advance now) (lookObs c s now true s.ack) = if ackNow s now == .none then 0 else sp.expiry := by
     simp [expiryAfter, lookObs, obsOf, getAck_ack]
@@ -285,10 +289,10 @@ theorem spec_step_advance (c : Cfg) (sp : SpecSt) (s : MSt) (now : Int) (h : Rel
   · have := rel_after_look c sp s now true s.ack sp.inDt sp.paused _ 0 h.2.1 h.2.2.1 h.2.2.2.2.1 h.2.2.2.2.2.2.2.2.2 hexp
     simpa [specNext, lookObs] using this
 
-theorem spec_step_stale (c : Cfg) (sp : SpecSt) (s : MSt) (new : SState) (es ee now : Int) (h : Rel sp s)
+theorem spec_step_stale (c : Cfg) (sp : SpecSt) (s : MSt) (new : SState) (es ee now : Int) (h : RelCore sp s)
     (hst : stale s.base ⟨new, es, now⟩ = true) :
     specStep c sp (.result new es ee now) (obsOf c (step c s (.result new es ee now))) = none ∧
-    Rel (specNext sp (.result new es ee now) (obsOf c (step c s (.result new es ee now)))) (step c s (.result new es ee now)).1 := by
+    RelCore (specNext sp (.result new es ee now) (obsOf c (step c s (.result new es ee now)))) (step c s (.result new es ee now)).1 := by
   rw [step_result_stale c s new es ee now hst]
   have hexp : expiryAfter sp (.result new es ee now) (lookObs c s now false s.ack) =
       if ackNow s now == .none then 0 else sp.expiry := by
@@ -300,15 +304,15 @@ theorem spec_step_stale (c : Cfg) (sp : SpecSt) (s : MSt) (new : SState) (es ee 
       (Or.inl rfl) (hexp := hexp)) ?_
     simp [first, obsOf, getAck_rest, h.2.2.2.1]
   · have := rel_after_look c sp s now false s.ack sp.inDt sp.paused _ 0 h.2.1 h.2.2.1 h.2.2.2.2.1 h.2.2.2.2.2.2.2.2.2 hexp
-    simpa [specNext, lookObs] using this
+    simpa [specNext, lookObs, obsOf] using this
 
 theorem filter_idem_or (l : List Cmt) (p : Cmt → Bool) (fired : Bool) :
     ((if fired then l.filter p else l) = l ∨ (if fired then l.filter p else l) = l.filter p) := by
   cases fired <;> simp
 
-theorem spec_step_pump (c : Cfg) (sp : SpecSt) (s : MSt) (now : Int) (fired : Bool) (h : Rel sp s) :
+theorem spec_step_pump (c : Cfg) (sp : SpecSt) (s : MSt) (now : Int) (fired : Bool) (h : RelCore sp s) :
     specStep c sp (.pump now fired) (obsOf c (step c s (.pump now fired))) = none ∧
-    Rel (specNext sp (.pump now fired) (obsOf c (step c s (.pump now fired)))) (step c s (.pump now fired)).1 := by
+    RelCore (specNext sp (.pump now fired) (obsOf c (step c s (.pump now fired)))) (step c s (.pump now fired)).1 := by
   rw [step_pump]
   have hA : RelA sp (pumped s now fired) := h.toA
   have hexp : expiryAfter sp (.pump now fired) (lookObs c (pumped s now fired) now true s.ack) =
@@ -322,9 +326,9 @@ theorem spec_step_pump (c : Cfg) (sp : SpecSt) (s : MSt) (now : Int) (fired : Bo
       h.2.2.2.2.2.2.2.2.2 hexp
     simpa [specNext, lookObs] using this
 
-theorem spec_step_downtime (c : Cfg) (sp : SpecSt) (s : MSt) (on : Bool) (now : Int) (h : Rel sp s) :
+theorem spec_step_downtime (c : Cfg) (sp : SpecSt) (s : MSt) (on : Bool) (now : Int) (h : RelCore sp s) :
     specStep c sp (.downtime on now) (obsOf c (step c s (.downtime on now))) = none ∧
-    Rel (specNext sp (.downtime on now) (obsOf c (step c s (.downtime on now)))) (step c s (.downtime on now)).1 := by
+    RelCore (specNext sp (.downtime on now) (obsOf c (step c s (.downtime on now)))) (step c s (.downtime on now)).1 := by
   rw [step_downtime]
   have hA : RelA sp { s with inDowntime := on } := h.toA
   have hexp : expiryAfter sp (.downtime on now) (lookObs c { s with inDowntime := on } now true s.ack) =
@@ -338,9 +342,9 @@ theorem spec_step_downtime (c : Cfg) (sp : SpecSt) (s : MSt) (on : Bool) (now : 
       h.2.2.2.2.2.2.2.2.2 hexp
     simpa [specNext, lookObs] using this
 
-theorem spec_step_pause (c : Cfg) (sp : SpecSt) (s : MSt) (on : Bool) (now : Int) (h : Rel sp s) :
+theorem spec_step_pause (c : Cfg) (sp : SpecSt) (s : MSt) (on : Bool) (now : Int) (h : RelCore sp s) :
     specStep c sp (.pause on now) (obsOf c (step c s (.pause on now))) = none ∧
-    Rel (specNext sp (.pause on now) (obsOf c (step c s (.pause on now)))) (step c s (.pause on now)).1 := by
+    RelCore (specNext sp (.pause on now) (obsOf c (step c s (.pause on now)))) (step c s (.pause on now)).1 := by
   rw [step_pause]
   have hA : RelA sp { s with paused := on } := h.toA
   have hexp : expiryAfter sp (.pause on now) (lookObs c { s with paused := on } now true s.ack) =
@@ -353,9 +357,9 @@ theorem spec_step_pause (c : Cfg) (sp : SpecSt) (s : MSt) (on : Bool) (now : Int
   · have := rel_after_look c sp { s with paused := on } now true s.ack sp.inDt on _ 0 h.2.1 h.2.2.1 h.2.2.2.2.1 rfl hexp
     simpa [specNext, lookObs] using this
 
-theorem spec_step_remind (c : Cfg) (sp : SpecSt) (s : MSt) (now : Int) (h : Rel sp s) :
+theorem spec_step_remind (c : Cfg) (sp : SpecSt) (s : MSt) (now : Int) (h : RelCore sp s) :
     specStep c sp (.remind now) (obsOf c (step c s (.remind now))) = none ∧
-    Rel (specNext sp (.remind now) (obsOf c (step c s (.remind now)))) (step c s (.remind now)).1 := by
+    RelCore (specNext sp (.remind now) (obsOf c (step c s (.remind now)))) (step c s (.remind now)).1 := by
   rw [step_remind]
   let raw : Ack := if remindable c s then (getAck s now).1.ack else s.ack
   let rem : Nat := if remindable c s && (getAck s now).1.ack == .none then 1 else 0
@@ -376,20 +380,20 @@ theorem spec_step_remind (c : Cfg) (sp : SpecSt) (s : MSt) (now : Int) (h : Rel 
   · have := rel_after_look c sp s now true raw sp.inDt sp.paused _ rem h.2.1 h.2.2.1 h.2.2.2.2.1 h.2.2.2.2.2.2.2.2.2 hexp
     simpa [specNext, lookObs, raw, rem] using this
 
-theorem spec_step_remove (c : Cfg) (sp : SpecSt) (s : MSt) (via : RVia) (now : Int) (h : Rel sp s) :
+theorem spec_step_remove (c : Cfg) (sp : SpecSt) (s : MSt) (via : RVia) (now : Int) (h : RelCore sp s) :
     specStep c sp (.remove via now) (obsOf c (step c s (.remove via now))) = none ∧
-    Rel (specNext sp (.remove via now) (obsOf c (step c s (.remove via now)))) (step c s (.remove via now)).1 := by
+    RelCore (specNext sp (.remove via now) (obsOf c (step c s (.remove via now)))) (step c s (.remove via now)).1 := by
   obtain ⟨h1, h2, h3, h4, h5, h6, h7, h8, h9, h10⟩ := h
   rw [step_remove]
   refine ⟨?_, ?_⟩
   · cases ha : s.ack <;> cases via <;>
       simp [specStep, obsOf, first, common, quiet, handledOf, sevAckOf, h2, h4, h5, h8, h9, ha, Ack.ind]
-  · simp [specNext, obsOf, Rel, h5, h8, h9, h10, expiryAfter]
+  · simp [specNext, obsOf, RelCore, h5, h8, h9, h10, expiryAfter]
 
 theorem spec_step_ack (c : Cfg) (sp : SpecSt) (s : MSt) (via : Via) (sticky notify persistent : Bool) (expiry now : Int)
-    (h : Rel sp s) :
+    (h : RelCore sp s) :
     specStep c sp (.ack via sticky notify persistent expiry now) (obsOf c (step c s (.ack via sticky notify persistent expiry now))) = none ∧
-    Rel (specNext sp (.ack via sticky notify persistent expiry now) (obsOf c (step c s (.ack via sticky notify persistent expiry now))))
+    RelCore (specNext sp (.ack via sticky notify persistent expiry now) (obsOf c (step c s (.ack via sticky notify persistent expiry now))))
       (step c s (.ack via sticky notify persistent expiry now)).1 := by
   have hr := ranOut_eq sp s now h
   have ha := ackAt_eq sp s now h
@@ -413,12 +417,12 @@ theorem spec_step_ack (c : Cfg) (sp : SpecSt) (s : MSt) (via : Via) (sticky noti
       · cases sticky <;> cases notify <;> cases hpa : s.paused <;> cases via <;>
           simp [specStep, obsOf, first, common, quiet, Op.now, ha, hr, hn', hreq, hcme, hg, handledOf, sevAckOf, hnotok,
             ackTypeOf, hd, h4, h8, h9, h10, hpa, addsComment] <;> simp_all [storedExpiry]
-      · simp [specNext, obsOf, Rel, hg, hd, h6, h7, h8, h9, h10, expiryAfter]
+      · simp [specNext, obsOf, RelCore, hg, hd, h6, h7, h8, h9, h10, expiryAfter]
     · refine ⟨?_, ?_⟩
       · cases sticky <;> cases notify <;> cases hpa : s.paused <;> cases via <;>
           simp [specStep, obsOf, first, common, quiet, Op.now, ha, hr, hn', hreq, hcme, hg, handledOf, sevAckOf, hnotok,
             ackTypeOf, hd, h4, h8, h9, h10, hpa, addsComment, expiryAfter] <;> simp_all [storedExpiry]
-      · cases sticky <;> simp [specNext, obsOf, Rel, hg, hreq, ackTypeOf, hd, h6, h7, h8, h9, h10, expiryAfter]
+      · cases sticky <;> simp [specNext, obsOf, RelCore, hg, hreq, ackTypeOf, hd, h6, h7, h8, h9, h10, expiryAfter]
   · -- refused
     let raw : Ack := if preRefuse c s via expiry now then s.ack else ackNow s now
     have hraw : raw = s.ack ∨ raw = ackNow s (Op.ack via sticky notify persistent expiry now).now := by
@@ -451,15 +455,15 @@ theorem stepCore_state (c : Cfg) (b : St) (r : Res) :
     (stepCore c b r).1.state = r.state ∧ (stepCore c b r).1.lastExec = some r.execStart := by
   simp [stepCore]
 
-theorem notificationDue_eq (c : Cfg) (sp : SpecSt) (s : MSt) (new : SState) (h : Rel sp s) :
+theorem notificationDue_eq (c : Cfg) (sp : SpecSt) (s : MSt) (new : SState) (h : RelCore sp s) :
     notificationDue c sp new = sendNotification c s.base new := by
   obtain ⟨h1, _, _, _, _, h6, h7, _⟩ := h
   simp [notificationDue, sendNotification, nextTypeAttempt, hardChangeOf, h1, h6, h7]
 
-theorem spec_step_result (c : Cfg) (sp : SpecSt) (s : MSt) (new : SState) (es ee now : Int) (h : Rel sp s)
+theorem spec_step_result (c : Cfg) (sp : SpecSt) (s : MSt) (new : SState) (es ee now : Int) (h : RelCore sp s)
     (hst : stale s.base ⟨new, es, now⟩ = false) :
     specStep c sp (.result new es ee now) (obsOf c (step c s (.result new es ee now))) = none ∧
-    Rel (specNext sp (.result new es ee now) (obsOf c (step c s (.result new es ee now)))) (step c s (.result new es ee now)).1 := by
+    RelCore (specNext sp (.result new es ee now) (obsOf c (step c s (.result new es ee now)))) (step c s (.result new es ee now)).1 := by
   have hr := ranOut_eq sp s now h
   have ha := ackAt_eq sp s now h
   have hdue := notificationDue_eq c sp s new h
@@ -506,18 +510,110 @@ theorem spec_step_result (c : Cfg) (sp : SpecSt) (s : MSt) (new : SState) (es ee
   · cases hs : s.ack
     · have he : expired s now = false := not_expired_of_none s now hs
       cases hsc : stateChange c.kind s.base.state new <;> cases hok : isOK c.kind new <;>
-        simp [specNext, obsOf, Rel, he, hsc, hok, hs, ackNow, ackAfterResult, clearsOnChange, stepCore_state, h4, h5, h8, h9,
+        simp [specNext, obsOf, RelCore, he, hsc, hok, hs, ackNow, ackAfterResult, clearsOnChange, stepCore_state, h4, h5, h8, h9,
           h10, expiryAfter, stepCore]
     all_goals
       have h3' : sp.expiry = s.expiry := h3 (by simp [hs])
       cases he : expired s now <;> cases hsc : stateChange c.kind s.base.state new <;> cases hok : isOK c.kind new <;>
-        simp [specNext, obsOf, Rel, he, hsc, hok, hs, ackNow, ackAfterResult, clearsOnChange, stepCore_state, h4, h5, h8, h9,
+        simp [specNext, obsOf, RelCore, he, hsc, hok, hs, ackNow, ackAfterResult, clearsOnChange, stepCore_state, h4, h5, h8, h9,
           h10, expiryAfter, stepCore, h3']
 
+
+
+/-! ## The suppressed-notification handler -/
+
+/-- The stash is processed at this run. -/
+def fireRelease (s : MSt) (now : Int) : Bool :=
+  fireConsiders s && !s.inDowntime && ackNow s now == .none && s.base.stype == .hard
+
+/-- Closed form of a run of `FireSuppressedNotifications` followed by the look. -/
+theorem step_fire (c : Cfg) (s : MSt) (now : Int) :
+    step c s (.fire now) =
+      let rel := fireRelease s now
+      let owed := rel && stateChange c.kind s.stateBefore s.base.state
+      let recovery := isOK c.kind s.base.state
+      (⟨s.base, ackNow s now, if expired s now then 0 else s.expiry, s.comments, s.suppProblem && !rel, s.suppRecovery && !rel,
+        s.inDowntime, s.paused, s.stateBefore⟩,
+       { acc := true, nClr := if expired s now then 1 else 0,
+         raw := if fireConsiders s && !s.inDowntime then ackNow s now else s.ack,
+         nProbN := if owed && !recovery then 1 else 0, nRecN := if owed && recovery then 1 else 0 }) := by
+  obtain ⟨b, a, e, cm, sp, sr, dt, pa, sb⟩ := s
+  by_cases hx : (¬ e = 0 ∧ e < now) <;> cases hs : b.stype <;> cases a <;> cases sp <;> cases sr <;> cases dt <;> cases pa <;>
+    simp [step, opStep, fireStep, fireRelease, fireConsiders, Op.now, ackNow, getAck_mk, expired_mk, hx, hs]
+
+theorem spec_step_fire (c : Cfg) (sp : SpecSt) (s : MSt) (now : Int) (h : RelCore sp s) (hb : sp.before = s.stateBefore) :
+    specStep c sp (.fire now) (obsOf c (step c s (.fire now))) = none ∧
+    RelCore (specNext sp (.fire now) (obsOf c (step c s (.fire now)))) (step c s (.fire now)).1 := by
+  have hr := ranOut_eq sp s now h
+  have ha := ackAt_eq sp s now h
+  obtain ⟨h1, h2, h3, h4, h5, h6, h7, h8, h9, h10⟩ := h
+  have hch : changed c sp.before s.base.state = stateChange c.kind s.stateBefore s.base.state := by rw [hb, changed_eq]
+  rw [step_fire]
+  refine ⟨?_, ?_⟩
+  · cases hs : s.ack
+    · have he : expired s now = false := not_expired_of_none s now hs
+      cases hP : s.suppProblem <;> cases hR : s.suppRecovery <;> cases hpa : s.paused <;> cases hdt : s.inDowntime <;>
+        cases hst : s.base.stype <;> cases hdf : stateChange c.kind s.stateBefore s.base.state <;>
+        cases hok : isOK c.kind s.base.state <;>
+        simp [specStep, lookCore, common, first, obsOf, Op.now, ha, hr, he, hs, hch, ackNow, fireRelease, fireConsiders,
+          handledOf, sevAckOf, problemOf, expiryAfter, h1, h2, h4, h5, h6, h8, h9, h10, hP, hR, hpa, hdt, hst, hdf, hok]
+    all_goals
+      have h3' : sp.expiry = s.expiry := h3 (by simp [hs])
+      cases he : expired s now <;>
+      cases hP : s.suppProblem <;> cases hR : s.suppRecovery <;> cases hpa : s.paused <;> cases hdt : s.inDowntime <;>
+        cases hst : s.base.stype <;> cases hdf : stateChange c.kind s.stateBefore s.base.state <;>
+        cases hok : isOK c.kind s.base.state <;>
+        simp [specStep, lookCore, common, first, obsOf, Op.now, ha, hr, he, hs, hch, ackNow, fireRelease, fireConsiders,
+          handledOf, sevAckOf, problemOf, expiryAfter, h1, h2, h4, h5, h6, h8, h9, h10, hP, hR, hpa, hdt, hst, hdf, hok, h3']
+  · cases hs : s.ack
+    · have he : expired s now = false := not_expired_of_none s now hs
+      simp [specNext, obsOf, RelCore, he, hs, ackNow, h1, h4, h5, h6, h7, h8, h9, h10, expiryAfter]
+    all_goals
+      have h3' : sp.expiry = s.expiry := h3 (by simp [hs])
+      cases he : expired s now <;>
+        simp [specNext, obsOf, RelCore, he, hs, ackNow, h1, h4, h5, h6, h7, h8, h9, h10, expiryAfter, h3']
+
+/-- The full relation: the core and the remembered state before the suppression. -/
+def Rel (sp : SpecSt) (s : MSt) : Prop := RelCore sp s ∧ sp.before = s.stateBefore
+
+/-- The bookkeeping's "state before the suppression" follows the model's `state_before_suppression`. -/
+theorem before_step (c : Cfg) (sp : SpecSt) (s : MSt) (op : Op) (h : RelCore sp s) (hb : sp.before = s.stateBefore) :
+    (specNext sp op (obsOf c (step c s op))).before = (step c s op).1.stateBefore := by
+  cases op with
+  | result new es ee now =>
+    cases hst : stale s.base ⟨new, es, now⟩
+    · have hdue := notificationDue_eq c sp s new h
+      obtain ⟨h1, h2, h3, h4, h5, h6, h7, h8, h9, h10⟩ := h
+      rw [step_result c s new es ee now hst]
+      simp only [specNext, obsOf, h1, h6, h8, h9, hb]
+      generalize ackAfterResult c s new now = a1
+      generalize sendNotification c s.base new = sn
+      generalize isOK c.kind new = okn
+      generalize isOK c.kind s.base.state = oko
+      generalize s.paused = pa
+      generalize s.inDowntime = dt
+      generalize s.suppProblem = pP
+      generalize s.suppRecovery = pR
+      cases a1 <;> cases sn <;> cases okn <;> cases oko <;> cases pa <;> cases dt <;> cases pP <;> cases pR <;> simp
+    · rw [step_result_stale c s new es ee now hst]; simp [specNext, obsOf, getAck_rest, hb]
+  | ack via sticky notify persistent expiry now =>
+    rw [step_ack]
+    cases hc : (preRefuse c s via expiry now || ackNow s now != .none) <;> simp [specNext, getAck_rest, hb]
+  | remove via now => rw [step_remove]; simp [specNext, hb]
+  | advance now => rw [step_advance]; simp [specNext, getAck_rest, hb]
+  | pump now fired => rw [step_pump]; simp [specNext, getAck_rest, pumped, hb]
+  | downtime on now => rw [step_downtime]; simp [specNext, getAck_rest, hb]
+  | pause on now => rw [step_pause]; simp [specNext, getAck_rest, hb]
+  | remind now => rw [step_remind]; simp [specNext, getAck_rest, hb]
+  | fire now => rw [step_fire]; simp [specNext, hb]
 
 /-- Every operation keeps the relation and satisfies the specification. -/
 theorem spec_step (c : Cfg) (sp : SpecSt) (s : MSt) (op : Op) (h : Rel sp s) :
     specStep c sp op (obsOf c (step c s op)) = none ∧ Rel (specNext sp op (obsOf c (step c s op))) (step c s op).1 := by
+  have hb := before_step c sp s op h.1 h.2
+  suffices hs : specStep c sp op (obsOf c (step c s op)) = none ∧
+      RelCore (specNext sp op (obsOf c (step c s op))) (step c s op).1 from ⟨hs.1, hs.2, hb⟩
+  obtain ⟨h, hbf⟩ := h
   cases op with
   | result new es ee now =>
     cases hst : stale s.base ⟨new, es, now⟩
@@ -530,6 +626,7 @@ theorem spec_step (c : Cfg) (sp : SpecSt) (s : MSt) (op : Op) (h : Rel sp s) :
   | downtime on now => exact spec_step_downtime c sp s on now h
   | pause on now => exact spec_step_pause c sp s on now h
   | remind now => exact spec_step_remind c sp s now h
+  | fire now => exact spec_step_fire c sp s now h hbf
 
 theorem spec_trace_rel (c : Cfg) (ops : List Op) :
     ∀ (sp : SpecSt) (s : MSt), Rel sp s → specTrace c sp (trace c s ops) = none := by
@@ -543,7 +640,7 @@ theorem spec_trace_rel (c : Cfg) (ops : List Op) :
     exact ih _ _ h2
 
 theorem rel_init : Rel specInit init := by
-  simp [Rel, specInit, init, pending]
+  simp [Rel, RelCore, specInit, init, pending]
 
 /-! ## Event balance: every set acknowledgement is reported cleared exactly once -/
 
@@ -584,6 +681,10 @@ theorem step_balance (c : Cfg) (s : MSt) (op : Op) :
   | downtime on now => rw [step_downtime]; simpa using getAck_balance { s with inDowntime := on } now
   | pause on now => rw [step_pause]; simpa using getAck_balance { s with paused := on } now
   | remind now => rw [step_remind]; simpa using getAck_balance s now
+  | fire now =>
+    rw [step_fire]
+    have := getAck_balance s now
+    simpa [getAck_cnt, getAck_ack] using this
 
 theorem totals_balance (c : Cfg) (ops : List Op) :
     ∀ s : MSt, s.ack.ind + (totals c s ops).1 = (totals c s ops).2 + (run c s ops).ack.ind := by
